@@ -3,6 +3,8 @@ import HawkModel.Drv.Xma
 import HawkModel.Drv.Rbt
 import HawkModel.Drv.Htb
 import HawkModel.Drv.Rio
+import HawkModel.Drv.Cmp
+import HawkModel.Drv.StrFn
 
 def main (args : List String) : IO UInt32 := do
   match args with
@@ -11,4 +13,6 @@ def main (args : List String) : IO UInt32 := do
   | "rbt" :: _ => Hawk.Drv.Rbt.main; return 0
   | "htb" :: _ => Hawk.Drv.Htb.main; return 0
   | "rio" :: _ => Hawk.Drv.Rio.main; return 0
+  | "cmp" :: _ => Hawk.Drv.Cmp.main; return 0
+  | "strfn" :: _ => Hawk.Drv.StrFn.main; return 0
   | _ => IO.eprintln "usage: hawkdrv <area>"; return 2
